@@ -5,12 +5,14 @@ namespace Goloop.Driver.C26
 open Goloop Goloop.C26
 
 /-- eight bloom slots -/
-abbrev State := List Nat
+structure State where
+  slots : List Nat            -- 0..7 bloom slots, 8 = bloom of the receipt being built
+  done : List Nat := []       -- blooms of finished receipts, oldest first
 
-def initState : State := List.replicate 8 0
+def initState : State := { slots := List.replicate 9 0 }
 
-def getSlot (s : State) (k : Nat) : Nat := s.getD k 0
-def setSlot (s : State) (k : Nat) (v : Nat) : State := s.set k v
+def getSlot (s : State) (k : Nat) : Nat := s.slots.getD k 0
+def setSlot (s : State) (k : Nat) (v : Nat) : State := { s with slots := s.slots.set k v }
 
 def showBloom (b : Nat) : String := Hex.encodeWire (natBytes b)
 
@@ -100,6 +102,22 @@ def step (s : State) (toks : List String) : State × String :=
       | some bs => (s, Hex.encodeWire bs)
       | none => (s, "panic")
     | none => (s, "bad-op")
+  | "rcptlog" :: a :: idx =>
+    -- Receipt.AddLog on the receipt being built
+    match Hex.decodeWire a, parseIdx idx with
+    | some a, some idx =>
+      let b := addLog sha3_256 (getSlot s 8) a idx
+      (setSlot s 8 b, showBloom b)
+    | _, _ => (s, "bad-op")
+  | ["rcptdone", mode] =>
+    -- pay / plain: the bloom is kept; nobloom: DisableLogsBloom clears it
+    if mode == "pay" || mode == "plain" || mode == "nobloom" then
+      let b := if mode == "nobloom" then 0 else getSlot s 8
+      ({ setSlot s 8 0 with done := s.done ++ [b] }, showBloom b)
+    else (s, "bad-op")
+  | ["rcptcheck"] =>
+    -- receipts serialised into a receipt list and read back: their blooms
+    (s, if s.done.isEmpty then "none" else ",".intercalate (s.done.map showBloom))
   | _ => (s, "bad-op")
 end Goloop.Driver.C26
 def main : IO Unit := Goloop.Proto.run Goloop.Driver.C26.step Goloop.Driver.C26.initState
